@@ -100,7 +100,7 @@ Proof. vm_compute. reflexivity. Qed.
 (* a read error after the first chunk of file 1 (no ERR is sent: both ends block), tear-down on
    quiescence: the run ends with both calls returned with an error and no goroutine live *)
 Example faulty_run_with_teardown_terminates :
-  let st := sched 1000 {| sc_fault := FReadErr 1 1; sc_gated := false |} c04_params (init c04_params) in
+  let st := sched 1000 (mk_scenario (FReadErr 1 1) false) c04_params (init c04_params) in
   c04_obs st = (true, Some false, Some false, [], [1]) /\ torn_down st = true.
 Proof. vm_compute. split; reflexivity. Qed.
 
@@ -108,8 +108,8 @@ Proof. vm_compute. split; reflexivity. Qed.
    => both fail; never a hang (exhaustive visited-set search, complete within the fuel) *)
 Example all_interleavings_small :
   let r0 := explore_scenario 5000 no_fault c04_small in
-  let r1 := explore_scenario 5000 {| sc_fault := FReadErr 1 0; sc_gated := false |} c04_small in
-  let r2 := explore_scenario 5000 {| sc_fault := FWalkErr 1; sc_gated := false |} c04_small in
+  let r1 := explore_scenario 5000 (mk_scenario (FReadErr 1 0) false) c04_small in
+  let r2 := explore_scenario 5000 (mk_scenario (FWalkErr 1) false) c04_small in
   (res_outcomes r0, res_complete r0, res_hang r0) = ([4], true, None) /\
   (res_outcomes r1, res_complete r1, res_hang r1) = ([8], true, None) /\
   (res_outcomes r2, res_complete r2, res_hang r2) = ([8], true, None).
@@ -118,8 +118,8 @@ Proof. vm_compute. repeat split; reflexivity. Qed.
 (* the search finds the 6c5966d hang with the old queue() and not with the new one
    (gated stream: 1 worker + pipeline capacity 0 + 2 requests) *)
 Example search_finds_old_queue_hang :
-  res_outcomes (explore_scenario 5000 {| sc_fault := FNone; sc_gated := true |} oldq_params) = [11] /\
-  let r := explore_scenario 5000 {| sc_fault := FNone; sc_gated := true |}
+  res_outcomes (explore_scenario 5000 (mk_scenario (FNone) true) oldq_params) = [11] /\
+  let r := explore_scenario 5000 (mk_scenario (FNone) true)
              {| p_W := 1; p_P := 0; p_C := 1; p_C2 := 1; p_capSR := 1; p_capRS := 2;
                 p_entries := p_entries oldq_params; p_old_queue := false |} in
   (res_outcomes r, res_complete r, res_hang r) = ([8], true, None).
@@ -128,6 +128,6 @@ Proof. vm_compute. split; reflexivity. Qed.
 (* known finding open-error-empty-file-success, as the model sees it: Open of file 1 fails,
    both calls return nil, file 1 is completed with none of its 2 chunks written *)
 Example open_error_both_succeed_empty_file :
-  let st := sched 1000 {| sc_fault := FOpenErr 1; sc_gated := false |} c04_params (init c04_params) in
+  let st := sched 1000 (mk_scenario (FOpenErr 1) false) c04_params (init c04_params) in
   c04_obs st = (true, Some true, Some true, [1; 3], [3]) /\ g_open_err st = true.
 Proof. vm_compute. split; reflexivity. Qed.
